@@ -102,6 +102,11 @@ Inductive sim (b : bool) : list elR -> list elR -> Prop :=
 | sim_dropR e l' l : nullb b e -> sim b l' l -> sim b l' (e :: l)
 | sim_dropL e l' l : nullb b e -> sim b l' l -> sim b (e :: l') l
 | sim_cons e' e l' l : esim b e' e -> sim b l' l -> sim b (e' :: l') (e :: l)
+(* a run of non-knockout elements on the right, the same run inside a full-opacity unmasked non-knockout
+   pass-through group on the left (ProofsLaws.passthrough_wrap) *)
+| sim_wrap ch' ch l' l :
+    Forall (fun e => elem_ko e = false) ch' -> sim b ch' ch -> sim b l' l ->
+    sim b (GroupR false ch' ones normal_fn false [] :: l') (ch ++ l)
 with esim (b : bool) : elR -> elR -> Prop :=
 | esim_leaf cs f fa B ko cl' cl : sim b cl' cl -> esim b (LeafR cs f fa B ko cl') (LeafR cs f fa B ko cl)
 | esim_group iso ch' ch fa B ko cl' cl :
@@ -113,7 +118,8 @@ Combined Scheme sim_esim_ind from sim_ind2, esim_ind2.
 
 Lemma sim_app b a' a_ b' b_ : sim b a' a_ -> sim b b' b_ -> sim b (a' ++ b') (a_ ++ b_).
 Proof.
-  induction 1; intros Hb; cbn; [assumption | apply sim_dropR; auto | apply sim_dropL; auto | apply sim_cons; auto].
+  induction 1; intros Hb; cbn; [assumption | apply sim_dropR; auto | apply sim_dropL; auto | apply sim_cons; auto |].
+  rewrite <- app_assoc. apply sim_wrap; auto.
 Qed.
 
 Lemma sim_of_esims b (l : list elR) : Forall (fun e => esim b e e) l -> sim b l l.
@@ -167,6 +173,20 @@ Proof.
     inversion O' as [|? ? Oe' Ol']; inversion O as [|? ? Oe Ol]; subst. cbn [apply_list fold_left].
     apply (IH Wl' Wl Ol' Ol); [apply apply_elem_Inv; assumption | apply apply_elem_Inv; assumption |].
     apply IHe; assumption.
+  - (* wrap *) intros ch' ch l' l N Hch IHch Hl IHl W' W O' O s t Is It E.
+    inversion W' as [|? ? Wg Wl']; inversion O' as [|? ? Og Ol']; subst.
+    apply Forall_app in W. destruct W as [Wch Wl]. apply Forall_app in O. destruct O as [Och Ol].
+    assert (Wch' : Forall wf ch') by (inversion Wg; assumption).
+    destruct (okb_children _ _ _ _ _ _ _ Og) as [Och' _].
+    cbn [apply_list fold_left]. unfold apply_list. rewrite fold_left_app.
+    fold (apply_list ch t). fold (apply_list l (apply_list ch t)).
+    fold (apply_list l' (apply_elem (GroupR false ch' ones normal_fn false []) s)).
+    pose proof (passthrough_wrap ch' s Wch' N Is) as P1.
+    pose proof (IHch Wch' Wch Och' Och s t Is It E) as E2.
+    apply (IHl Wl' Wl Ol' Ol).
+    + apply apply_elem_Inv; assumption.
+    + apply apply_list_Inv; assumption.
+    + eapply rel_trans; [apply peq_rel; exact P1 | exact E2].
   - (* leaf *) intros cs f fa B ko cl' cl Hs IH W' W O' O s t Is It E.
     inversion W'; inversion W; subst. cbn [apply_elem]. unfold apply_factors.
     pose proof (init_Inv false cs f ltac:(assumption) ltac:(assumption)) as I0.
